@@ -5,10 +5,11 @@ HERE = os.path.dirname(os.path.dirname(os.path.abspath(__file__)))
 sys.path.insert(0, os.path.join(HERE, 'lib')); sys.path.insert(0, os.path.join(HERE, 'checks'))
 props = [json.loads(l) for l in open(os.path.join(HERE, 'properties.jsonl'))]
 na_reasons = json.load(open(os.path.join(HERE, 'tools', 'not_applicable.json')))
+registered = json.load(open(os.path.join(HERE, 'tools', 'registered.json')))
 checks, na = [], []
 for p in props:
     cid = p['id']
-    if not os.path.exists(os.path.join(HERE, 'checks', cid + '.py')):
+    if cid not in registered or not os.path.exists(os.path.join(HERE, 'checks', cid + '.py')):
         na.append({'property_id': cid, 'reason': na_reasons.get(cid, 'no check registered: the Coq model, proofs and correspondence harness for this property are not built yet (the technique applies, see DESIGN.md section 4)')})
         continue
     c = importlib.import_module(cid).CHECK
